@@ -23,7 +23,7 @@ func TestReplay(t *testing.T) { evid.Replay(t) }
 var (
 	keyNames   = []string{"sample", "k", "taxid", "flag", "x_y"}
 	strValues  = []string{"a", "b", "A", "x y", "s-1", "é", "zz_a_longer_value", ""}
-	intValues  = []int64{0, 1, -1, 2, 10, 42, 1000000, 123456789012, 9007199254740992}
+	intValues  = []int64{0, 1, -1, 2, 10, 42, 1000000, 123456789012, 9007199254740992, -1000000, -123456789012, 999999, 20000000, -9007199254740992}
 	naValues   = []string{"NA", "NA", "NA", "na", "missing", "N A", ""}
 	batchSizes = []int{1, 2, 3, 5, 10, 100, 5000}
 )
@@ -56,7 +56,9 @@ func genValuePool(t *rapid.T, na string) []Val {
 	seen := map[string]bool{}
 	for len(out) < n {
 		var v Val
-		switch rapid.SampledFrom([]string{"s", "s", "i", "b", "na"}).Draw(t, "kind") {
+		switch rapid.SampledFrom([]string{"s", "s", "i", "b", "na", "s", "i", "f"}).Draw(t, "kind") {
+		case "f":
+			v = Val{K: "f", I: rapid.SampledFrom(intValues).Draw(t, "float")}
 		case "s":
 			v = Val{K: "s", S: rapid.SampledFrom(strValues).Draw(t, "str")}
 		case "i":
@@ -291,24 +293,30 @@ func classesOf(c Case, s stats) []string {
 		}
 	}
 	kinds := map[string]bool{}
-	big := false
+	big, neg := false, false
 	for _, r := range c.Recs {
 		for _, v := range r.Attr {
 			if v.present() {
 				kinds[v.K] = true
-				if v.K == "i" && (v.I >= 1000000 || v.I <= -1000000) {
+				if (v.K == "i" || v.K == "f") && (v.I >= 1000000 || v.I <= -1000000) {
 					big = true
+				}
+				if (v.K == "i" || v.K == "f") && v.I < 0 {
+					neg = true
 				}
 			}
 		}
 	}
-	for k := range map[string]string{"s": "", "i": "", "b": ""} {
+	for k := range map[string]string{"s": "", "i": "", "b": "", "f": ""} {
 		if kinds[k] {
 			cl = append(cl, "value_kind:"+k)
 		}
 	}
 	if big {
 		cl = append(cl, "int_value_ge_1e6")
+	}
+	if neg {
+		cl = append(cl, "negative_numeric_value")
 	}
 	for _, r := range c.Runs {
 		cl = append(cl, fmt.Sprintf("chunks:%d", r.Chunks))
